@@ -129,8 +129,8 @@ DIR_SPEC = {
         r is Ok ==> paths_sorted(r->Ok_0@), // [C12:directory_files_applied_in_sorted_order]""",
     "loops": {"0": {"kw": "while", "spec": """        invariant
             reader.taken@ + reader.rest@ == dir_entries(dir), tk__ == reader.taken@,
-            forall|p: PathBuf| #[trigger] out@.contains(p) ==> reader.taken@.contains(p) && !is_dir_spec(p),
-            forall|p: PathBuf| #[trigger] reader.taken@.contains(p) && !is_dir_spec(p) ==> out@.contains(p),
+            forall|p: PathBuf| #[trigger] out@.contains(p) ==> reader.taken@.contains(p) && !is_dir_spec(p), // [C19:only_entries_of_the_directory_are_listed]
+            forall|p: PathBuf| #[trigger] reader.taken@.contains(p) && !is_dir_spec(p) ==> out@.contains(p), // [C19:every_file_of_a_configured_directory_is_loaded_or_the_load_fails]
         ensures reader.rest@.len() == 0,
         decreases reader.rest@.len(),
 """, "entry": "let ghost out0__ = out@;"}},
